@@ -16,7 +16,7 @@ LEVEL_TEXT = ("Static structural proof of necessary conditions: (R16.1) the thre
               "and the dataset result; (R16.4) the command-line status is non-zero iff the unmodified validate result "
               "is non-empty; (R16.5) applicable sidecars are collected root->leaf and merged forward with later-wins. "
               "The applicability test on entities and equality with per-file validation are NOT decided.")
-LEVEL_EXTRA = "Added after the seeded evaluation: (R16.2) both directory walkers apply the same exclusion test. (R16.6) a data file's sidecar is built from the whole list of sidecars applicable to it. (R16.7) no entity comparison in is_sidecar_for defaults a missing entity to the expected value. R16.1 also reports a file-selecting constructor parameter that is stored in a rewritten form. (R16.8) every sidecar of the group reaches the validator and a data file is read with the merged sidecar contents. (R16.9) a parameter is handed on to every repository callee that takes a parameter of the same name (11 frozen exceptions package-wide)."
+LEVEL_EXTRA = "Added after the seeded evaluation: (R16.2) both directory walkers apply the same exclusion test. (R16.6) a data file's sidecar is built from the whole list of sidecars applicable to it. (R16.7) no entity comparison in is_sidecar_for defaults a missing entity to the expected value. R16.1 also reports a file-selecting constructor parameter that is stored in a rewritten form. (R16.8) every sidecar of the group reaches the validator and a data file is read with the merged sidecar contents. (R16.9) a parameter is handed on to every repository callee that takes a parameter of the same name (11 frozen exceptions package-wide). R16.8 also requires every data file of the group to reach contents.validate."
 
 
 def bind(call, callee, skip_self=False):
@@ -498,6 +498,20 @@ def run(ctx):
                   "a sidecar of the group can be passed over without being validated: its issues (e.g. a HED key below the level where "
                   "`has_hed` looks) are missing from the dataset result and the command line exits 0",
                   desc="every sidecar reaches validator.validate")
+    # ... and every data file of the group (a file without HED still has its structure and onset order checked)
+    vdf = group.methods.get("validate_datafiles")
+    if vdf is None:
+        raise AnalysisError("anchor BidsFileGroup.validate_datafiles vanished")
+    ctx.saw(vdf)
+    v168d = _view16(ctx, vdf)
+    dcalls = [n_ for (n_, c) in v168d.calls(lambda c: call_name(c) == "validate")]
+    loops168d = [lp for lp in walk_no_nested(vdf.node) if isinstance(lp, ast.For) and "datafile_dict" in norm(lp.iter)]
+    ctx.floor("R16.8", "per-file loops in validate_datafiles", len(loops168d), 1)
+    for lp in loops168d:
+        ctx.check(bool(dcalls) and not iteration_can_skip(v168d, lp, dcalls), "R16.8", vdf.qualname, lp.iter, loc(vdf, lp),
+                  "a data file of the group can be passed over without being validated: what validating that file alone reports "
+                  "(e.g. unordered onsets in a file without HED) is missing from the dataset result and from the exit status",
+                  desc="every data file reaches contents.validate")
     # the table of a data file is built with the merged sidecar contents, not with one file
     sc8 = prog.find_class("BidsTabularFile").methods.get("set_contents")
     if sc8 is None:
